@@ -14,6 +14,7 @@ from __future__ import annotations
 
 import dataclasses
 
+import numpy as np
 import onnx_ir as ir
 
 
@@ -52,6 +53,14 @@ def _tensor(t, with_name=True):
             data = tuple(t.string_data()) if hasattr(t, "string_data") else bytes(t.tobytes())
         else:
             data = bytes(t.tobytes())
+            # the element values as well, laid out by this harness (not by the library's own byte path)
+            try:
+                arr = t.numpy()
+                if arr.dtype.byteorder == ">":
+                    arr = arr.astype(arr.dtype.newbyteorder("<"))
+                data = (data, np.ascontiguousarray(arr).tobytes())
+            except Exception as e:  # noqa: BLE001
+                data = (data, ("no-array", type(e).__name__))
     except Exception as e:  # noqa: BLE001
         data = ("unreadable", type(e).__name__)
     return (_s(t.name) if with_name else "", int(t.dtype), tuple(_dim(d) for d in t.shape.dims), data, _s(t.doc_string), tuple(sorted((t.metadata_props or {}).items())))
